@@ -11,6 +11,8 @@ pub mod corpus;
 pub mod ctx;
 pub mod gen;
 pub mod monitor;
+#[cfg(feature = "full")]
+pub mod observe;
 pub mod props;
 pub mod reference;
 pub mod rng;
